@@ -103,8 +103,8 @@ void run(Ctx &ctx) {
     { Both bs(ctx, 520); uint64_t si = 0; stretch_family(ctx.secondary ? 0 : ctx.quick() ? 1 : 2, [&](const Str &s) { if (ctx.mine(si++) && !ctx.expired()) { bs.run(s.data(), (int)s.size(), true); ctx.st.count("stretch_family"); } });
       b.lc.strings += bs.lc.strings; b.lc.accepted += bs.lc.accepted; b.lc.calls += bs.lc.calls; for (int i = 0; i < 5; i++) b.lc.kinds[i] += bs.lc.kinds[i]; b.lc.empty_components += bs.lc.empty_components; b.lc.placeholder_empty += bs.lc.placeholder_empty; for (auto &x : bs.lc.shapes) b.lc.shapes.insert(x); }
     if (z.octets) {
-        static const char *oc[17] = { "0", "9", "10", "99", "100", "199", "200", "249", "250", "255", "256", "260", "300", "00", "01", "1a", "" };
-        uint64_t oi = 0; for (int a = 0; a < 17; a++) for (int b2 = 0; b2 < 17; b2++) { if (!ctx.mine(oi++) || ctx.expired()) continue; for (int c = 0; c < 17; c++) for (int d = 0; d < 17; d++) {
+        static const char *oc[22] = { "0", "9", "10", "99", "100", "199", "200", "249", "250", "255", "256", "260", "300", "00", "01", "1a", "", "19", "20", "25", "26", "29" };
+        uint64_t oi = 0; for (int a = 0; a < 22; a++) for (int b2 = 0; b2 < 22; b2++) { if (!ctx.mine(oi++) || ctx.expired()) continue; for (int c = 0; c < 22; c++) for (int d = 0; d < 22; d++) {
             Str h = Str(oc[a]) + "." + oc[b2] + "." + oc[c] + "." + oc[d]; ip4_case<char>(ctx, b.ra.fb, h); ip4_case<wchar_t>(ctx, b.rw.fb, h); ctx.st.count("ip4_parser_cases"); } }
         all_strings(ctx, "0125.9a", ctx.secondary ? 5 : 7, [&](const Str &s) { if (ctx.expired()) return; ip4_case<char>(ctx, b.ra.fb, s); ip4_case<wchar_t>(ctx, b.rw.fb, s); ctx.st.count("ip4_parser_cases"); });
     }
